@@ -38,6 +38,8 @@ TRACE_MODULE = {}
 def add_rejects(ck, rejects, events_by_id, keyfn):
     for r in rejects:
         ev = events_by_id.get(r["id"])
+        if ev is None:
+            continue        # collateral rejects inside a corrupted canary episode
         ck.violation(keyfn(ev, r), r.get("why", ""), ev)
 
 
@@ -728,4 +730,101 @@ def c10(ck):
                "verifiers, signature_key_ids, verify_digests and byte-identity of header and payload are observed; "
                "non-trivial = distinct prefix-tree nodes")
     ck.assumptions.append("expected key ids are the primary key ids of the public key files, read with the pgp crate directly")
+    ck.finish()
+
+
+# ------------------------------------------------------------------------------------ C14
+TRACE_MODULE["C14"] = "Trace_C14"
+
+
+def episodes(events):
+    eps, cur = [], []
+    for e in events:
+        if e.get("ep_start"):
+            if cur:
+                eps.append(cur)
+            cur = []
+        cur.append(e)
+    if cur:
+        eps.append(cur)
+    return eps
+
+
+@prop("C14")
+def c14(ck):
+    binary = vlib.build_harness()
+    ck.add_tlc(vlib.mc("MC_IoSink", "MC_IoSink_write_all.cfg", ck.scratch, workers=4))
+    # the specification must tell the two writer designs apart: the single-write() design violates Safe
+    r = vlib.tlc("MC_IoSink", "MC_IoSink_single.cfg", ck.scratch, workers=1, timeout=300)
+    if r["ok"] or "Invariant Safe is violated" not in r["out"]:
+        raise ToolError("MC_IoSink_single: the specification does not reject the single-write design")
+    ck.extra["design_counterexample"] = "single write() per segment violates Safe (as expected)"
+    tr = ck.scratch / "c14.ndjson"
+    vlib.run_harness(binary, ["c14", "--out", tr, "--seed", ck.seed, "--tier", ck.tier], timeout=3000)
+    events = read_ndjson(tr)
+    by_id = {e["id"]: e for e in events}
+    nid = max(by_id) + 1
+    canaries = []
+    extra = []
+    def one(pred, mut):
+        nonlocal nid
+        c = _first(events, pred, "C14")
+        mut(c)
+        c["id"] = nid
+        c.pop("ep_start", None)
+        canaries.append(nid)
+        nid += 1
+        extra.append(c)
+    one(lambda e: e["event"] == "Run" and e["result"] == "err" and e["emitted_len"] < e["canonical_len"], lambda c: c.__setitem__("result", "ok"))
+    one(lambda e: e["event"] == "Run", lambda c: c.__setitem__("all_at_pos", False))
+    one(lambda e: e["event"] == "ParseTruncated" and e["at"] < e["payload_at"], lambda c: c.__setitem__("result", "ok"))
+    one(lambda e: e["event"] == "ParseChunked", lambda c: c.__setitem__("same_as_whole", False))
+    one(lambda e: e["event"] == "HashRun", lambda c: c.__setitem__("hashed", "0" * 64))
+    # a detailed episode in which one call does not continue the canonical bytes, and one that returns ok early
+    eps = [ep for ep in episodes(events) if ep[0]["event"] == "Begin"]
+    def ep_clone(ep, mut):
+        nonlocal nid
+        out = copy.deepcopy([x for x in ep if x["event"] in ("Begin", "Write", "Return")])
+        target = mut(out)
+        for x in out:
+            x["id"] = nid
+            nid += 1
+        canaries.append(target["id"])
+        return out
+    def bad_call(o):
+        w = [x for x in o if x["event"] == "Write" and x["len"] > 0][3]
+        w["at_pos"] = False
+        return w
+    def early_ok(o):
+        cut = [i for i, x in enumerate(o) if x["event"] == "Write"][5]
+        del o[cut + 1:-1]
+        o[-1]["result"] = "ok"
+        o[-1]["emitted_len"] = 0
+        return o[-1]
+    ep = next((ep for ep in eps if ep[-1]["event"] == "Return" and ep[-1]["result"] == "ok"
+               and sum(1 for x in ep if x["event"] == "Write" and x["len"] > 0) > 8), None)
+    if ep is not None:      # (absent only when the implementation under test is already failing everywhere)
+        extra = ep_clone(ep, bad_call) + ep_clone(ep, early_ok) + extra
+    else:
+        ep = eps[0]
+    events = extra + events
+    write_ndjson(tr, events)
+    v = vlib.validate_trace("Trace_C14", "Trace_C14.cfg", ck.scratch, tr, shards=8)
+    ck.add_validation(v, traces=len(eps))
+    rej = ck.expect_canary(v["rejects"], canaries)
+    add_rejects(ck, rej, by_id, lambda e, r: f"{e['event']}:{e.get('pkg', '')}:{e.get('mode', e.get('at', e.get('chunk', '')))}:{e.get('what', '')}" if e else "?")
+    real = [e for e in events if e["id"] in by_id]
+    runs = [e for e in real if e["event"] == "Run"]
+    ck.evaluations = len(runs) + sum(1 for e in real if e["event"] in ("ParseTruncated", "ParseChunked", "HashRun")) + len(eps)
+    ck.nontrivial = len({(e["pkg"], e["mode"], e["what"]) for e in runs}) + len({(e["pkg"], e["at"]) for e in real if e["event"] == "ParseTruncated"})
+    ck.extra.update(fault_offsets=sum(1 for e in runs if e["mode"].startswith(("fail_at", "zero_at"))),
+                    chunked_runs=sum(1 for e in runs if not e["mode"].startswith(("fail_at", "zero_at"))),
+                    detailed_episodes=len(eps), write_calls_validated=sum(1 for e in real if e["event"] == "Write"),
+                    err_without_sink_failure=sum(1 for e in runs if e["result"] == "err" and not e["sink_failed"]))
+    ck.samples += [runs[0], next(e for e in runs if e["mode"].startswith("chunk")), ep[:3]]
+    ck.rule = ("Package::write / PackageMetadata::write of built packages and small assets into scripted sinks: a failure "
+               "(and a zero-length acceptance) at every offset of the metadata and a stride through the payload, chunk "
+               "families {1,2,3,5,7,16,4096, seeded random}, interleaved Interrupted; per-call episodes validated step by "
+               "step; parsing from 1/2/3/7/16-byte and random chunk sources and truncation at every metadata offset; "
+               "the public Sha256Writer in front of short-accepting sinks; non-trivial = distinct (package, sink script)")
     ck.finish()
